@@ -514,6 +514,7 @@ static int ILLcheck_rawlpdata (
 	int i, col, rval = 0;
 	int si, *perm = NULL;
 	const char *c1, *c2;
+	char *str;
 	EGLPNUM_TYPENAME_sosptr *set;
 
 	ILL_FAILfalse (lp, "lp must not be NULL");
@@ -571,9 +572,11 @@ static int ILLcheck_rawlpdata (
 					{
 						c1 = EGLPNUM_TYPENAME_ILLraw_colname (lp, lp->sos_col[perm[i]]);
 						c2 = EGLPNUM_TYPENAME_ILLraw_colname (lp, lp->sos_col[perm[i - 1]]);
+						str = EGLPNUM_TYPENAME_EGlpNumGetStr (lp->sos_weight[perm[i]]);
 						EGLPNUM_TYPENAME_ILLdata_error (lp->error_collector,
-													 "\"%s\" and \"%s\" both have %s %f.\n", c1, c2,
-													 "SOS weight", lp->sos_weight[perm[i]]);
+													 "\"%s\" and \"%s\" both have %s %s.\n", c1, c2,
+													 "SOS weight", str);
+						EGfree (str);
 						rval = 1;
 					}
 				}
